@@ -58,6 +58,16 @@ package compress
 //@     set zerobits = (f64bits(ret0[0]) == 0)
 //@   ensures result1 == nil && len(result0) == len(out) + 2 ==> zerobits
 
+// The run-length coder decides "same run" and "zero run" on BIT PATTERNS (the uint64 view of the column):
+// -0.0 is not +0.0 and NaN payloads differ, so a run is elided only if every value in it has the same bits.
+//@ func (*RLE).Encoding
+//@   ghost bits bool = false
+//@   call Bytes2Uint64Slice
+//@     requires arg0 == in
+//@     set bits = true
+//@     frame nothing
+//@   ensures [bit_pattern_view] bits
+
 //@ func GorillaEncoding
 //@   ensures result1 != nil ==> result0 == nil
 
